@@ -278,26 +278,39 @@ theorem sendFile_inv (e : Env) (o : O) (h : Inv B S o) : Inv B S (sendFile e o).
   dsimp only
   own_auto
 
+theorem sendHeadFirst_inv (e : Env) (o : O) (h : Inv B S o) : Inv B S (sendHeadFirst e o).1 := by
+  obtain ⟨h1, h2, h3, h4, h5, h6, h7, h8, h9⟩ := h
+  unfold sendHeadFirst
+  dsimp only
+  (repeat' split) <;> own_auto
+
+theorem sendBodyFirst_inv (e : Env) (o : O) (h : Inv B S o) : Inv B S (sendBodyFirst e o).1 := by
+  obtain ⟨h1, h2, h3, h4, h5, h6, h7, h8, h9⟩ := h
+  unfold sendBodyFirst
+  dsimp only
+  (repeat' split) <;> own_auto
+
+theorem readCopy_inv (e : Env) (o : O) (k : RKind) (n : Nat) (h : Inv B S o) : Inv B S (readCopy e o k n).1 := by
+  unfold readCopy
+  dsimp only
+  split
+  · exact h
+  · split
+    · have := sendFile_inv e _ h
+      split <;> exact this
+    · have := copyLoop_inv e (n + 1) _ n 0 h
+      split <;> exact this
+
 theorem readFrom_inv (e : Env) (o : O) (k : RKind) (n : Nat) (h : Inv B S o) : Inv B S (readFrom e o k n).1 := by
-  have h' := encodeHead_inv e o h
+  have h1 := sendHeadFirst_inv e _ (encodeHead_inv e o h)
+  have h2 := sendBodyFirst_inv e _ h1
   unfold readFrom
   dsimp only
-  generalize encodeHead e o = o1 at *
   split
-  · exact h'
-  · rename_i id bl hb
-    have hs : Inv B S ({ (send e o1 (some id) bl).1.free id with buffer := none } : O) := by
-      obtain ⟨h1, h2, h3, h4, h5, h6, h7, h8, h9⟩ := h'
-      own_auto
-    split
-    · exact hs
-    · split
-      · exact hs
-      · split
-        · have := sendFile_inv e _ hs
-          split <;> exact this
-        · have := copyLoop_inv e (n + 1) _ n 0 hs
-          split <;> exact this
+  · exact h1
+  · split
+    · exact h2
+    · exact readCopy_inv e _ k n h2
 
 theorem flushBuf_inv (e : Env) (o : O) (h : Inv B S o) : Inv B S (flushBuf e o) := by
   obtain ⟨h1, h2, h3, h4, h5, h6, h7, h8, h9⟩ := h
